@@ -9,7 +9,7 @@ proof or tie broke), verdict.  Exit 0 = held, 1 = VIOLATION line printed, 2 = ma
 """
 import fcntl, hashlib, json, os, re, shutil, subprocess, sys, time
 
-V = '/verif'
+V = os.path.dirname(os.path.dirname(os.path.abspath(__file__)))
 LEAN = V + '/lean'
 HARNESS = V + '/harness'
 WORK = '/dev/shm/ructe-verif-work' if os.path.isdir('/dev/shm') else V + '/work'
@@ -17,7 +17,7 @@ sys.path.insert(0, V + '/tools')
 import plans  # noqa: E402
 
 ALLOWED_AXIOMS = {'propext', 'Classical.choice', 'Quot.sound'}
-ENV = dict(os.environ, CARGO_NET_OFFLINE='true')
+ENV = dict(os.environ, CARGO_NET_OFFLINE='true', VERIF_ROOT=V)
 
 
 def log(*a):
@@ -190,7 +190,7 @@ def main():
         return 2
     plan = plans.PLANS[prop]
     t0 = time.time()
-    ev = dict(work=f'{WORK}/{prop}-{tier}')
+    ev = dict(work=f'{WORK}/{prop}-{tier}-{os.getpid()}')
     os.makedirs(ev['work'], exist_ok=True)
     evidence_path = f'{V}/evidence/{prop}.json'
     os.makedirs(V + '/evidence', exist_ok=True)
@@ -311,4 +311,13 @@ def finish(prop, plan, tier, seed, t0, pr, disagreements, oracle_fail, samples, 
 
 
 if __name__ == '__main__':
-    sys.exit(main())
+    rc = 2
+    try:
+        rc = main()
+    finally:
+        # scratch data of this invocation (request / answer files, private binaries)
+        if not os.environ.get('VERIF_KEEP_WORK'):
+            for d in os.listdir(WORK) if os.path.isdir(WORK) else []:
+                if d.endswith('-' + str(os.getpid())):
+                    shutil.rmtree(os.path.join(WORK, d), ignore_errors=True)
+    sys.exit(rc)
